@@ -176,3 +176,21 @@ Definition loss_reentrant_ok (r : N) (b m a : snapshot) : Prop :=
   sn_ran b = [] /\
   Permutation (sn_ran a) (expected_runs_reentrant r b m) /\
   sn_fired a = sn_fired b.
+
+(* ---- Part 2, with calls whose Deferred the caller has cancelled ----------------------------------
+
+   A cancelled Deferred has fired (with CancelledError) and is no longer outstanding for the caller;
+   whatever the connection later does with that call is not delivered to anybody.  [view cancelled s]
+   is snapshot s as the caller sees it.  What is NOT filtered is sn_timers: "its timers are
+   cancelled" and "nothing fires afterwards" speak of the reactor, cancelled calls included. *)
+Definition not_cancelled (cancelled : list nat) (i : nat) : bool :=
+  negb (existsb (Nat.eqb i) cancelled).
+
+Definition view (cancelled : list nat) (s : snapshot) : snapshot :=
+  Snapshot (filter (not_cancelled cancelled) (sn_outstanding s))
+           (sn_timers s)
+           (sn_registered s)
+           (filter (fun x => not_cancelled cancelled (fst x)) (sn_completed s))
+           (sn_ran s)
+           (sn_fired s)
+           (sn_issued s).
